@@ -9,24 +9,49 @@ open Bolt.FL Bolt.Store
     version is unchanged and intact, readers keep their snapshots, accounting is exact again
     (allocated pages are free again, freed pages are referenced again), the writer slot is
     released and the next write transaction can begin. -/
-theorem failed_commit_clean (s : St) (hr : Reachable s) (w : W) (hw : s.w = some w)
+theorem failed_commit_clean (s : St) (hr : Reachable s) (hb : s.cur.txid + 2 < maxU64)
+    (w : W) (hw : s.w = some w)
     (s' : St) (h : stepAll s .failedCommit = some s') :
     s'.cur = s.cur ∧ s'.readers = s.readers ∧ s'.w = none ∧
     Intact s'.disk s'.cur ∧ (∀ r ∈ s'.readers, Intact s'.disk r) ∧
     (∀ p ∈ w.allocated, p ∉ s'.cur.used) ∧
     (∀ p, 2 ≤ p → p < s'.cur.hwm → (p ∈ s'.cur.used ∨ p ∈ s'.fl.freeIds ∨ p ∈ s'.fl.pendingIds)) ∧
     (stepAll s' .beginW).isSome := by
-  sorry
+  have hi := hr.inv
+  have hri := hr.rinv hb
+  have hi' := inv_step hi h
+  obtain ⟨w', fl1, fl2, hw', h1, h2, rfl⟩ := step_failedCommit h
+  rw [hw] at hw'
+  cases hw'
+  have hna : ∀ p ∈ w.allocated, p ∉ s.cur.used := by
+    intro p hp
+    rw [← St.allocated_some hw] at hp
+    exact (hi.alloc_bd p hp).2.2.1
+  refine ⟨rfl, rfl, rfl, hi.disk.write _ _ hna, ?_, hna, ?_, ?_⟩
+  · intro r hrd
+    apply (hri.rdisk r hrd).write
+    intro p hp hpr
+    rw [← St.allocated_some hw] at hp
+    exact reader_page_not_allocated hi hri hrd hpr hp
+  · intro p hp1 hp2
+    rcases hi'.cover p hp1 hp2 with hc | hc | hc | hc
+    · exact Or.inl hc
+    · exact Or.inr (Or.inl hc)
+    · exact Or.inr (Or.inr hc)
+    · cases hc
+  · simp [stepAll, step]
 
 /-- The failure path is always available: the model's `failedCommit` never gets stuck in a
     reachable state with an open writer (no panic in `rollback`). -/
 theorem failed_commit_enabled (s : St) (hr : Reachable s) (w : W) (hw : s.w = some w) :
-    (stepAll s .failedCommit).isSome := by
-  sorry
+    (stepAll s .failedCommit).isSome :=
+  failedCommit_enabled hr.inv hw
 
 /-- A user rollback (nothing allocated yet) restores the allocator exactly. -/
 theorem rollback_clean (s : St) (hr : Reachable s) (s' : St) (h : stepAll s .rollback = some s') :
     s'.cur = s.cur ∧ s'.w = none ∧ s'.readers = s.readers ∧ s'.fl.freeIds = s.fl.freeIds := by
-  sorry
+  obtain ⟨w, fl', _, _, hrb, rfl⟩ := step_rollback h
+  obtain ⟨h1, h2, h3, _⟩ := rollback_frame' hrb
+  exact ⟨rfl, rfl, rfl, freeIds_congr h1 h2 h3⟩
 
 end Bolt.C08
